@@ -251,6 +251,17 @@ def rule_units(ctx: Ctx) -> List[Ob]:
     def cur(st) -> str:
         return st.get(FAC, ONE)
 
+    def evaluated(st, which: str) -> str:
+        """unit of what the wrapper's accessor returns: the cached value times the current factor.  The cache normally
+        holds an unscaled value (it is written by the evaluation closures only, rule SF3); if the solver primed it from
+        outside (`sf.f = ...`) it holds whatever unit was stored"""
+        memo = st.get(f"$memo:{which}")
+        if memo is None or memo == RAW:
+            return scaled_now(st)
+        if memo.startswith("SCALED") and cur(st) == ONE:
+            return memo
+        return DOUBLE if memo.startswith("SCALED") else MIXED
+
     def is_fac(e: ast.expr, st) -> bool:
         """the wrapper's factor, or a local name bound to it since the factor was last written"""
         if src(e) == fac:
@@ -273,7 +284,7 @@ def rule_units(ctx: Ctx) -> List[Ob]:
             a, b = unit_of(e.body, st), unit_of(e.orelse, st)
             return a if a == b else MIXED
         if isinstance(e, ast.Call) and (dotted(e.func) or "") in (f"{sf}.fun", f"{sf}.grad"):
-            return scaled_now(st)
+            return evaluated(st, "f" if (dotted(e.func) or "").endswith(".fun") else "g")
         if isinstance(e, ast.Attribute) and src(e).startswith("checkpoint."):
             return S(CK) if e.attr in ("fun", "jac") else RAW
         if isinstance(e, ast.Name):
@@ -305,11 +316,17 @@ def rule_units(ctx: Ctx) -> List[Ob]:
         out = dict(st)
         s = n.ast
         for k, v, how in defs:
+            if k in (f"{sf}.f", f"{sf}.g") and v is not None:
+                out[f"$memo:{k[-1]}"] = unit_of(v, st)       # the cache primed from outside the wrapper
+                continue
             if k == fac:
                 out[FAC] = fac_source(v, st)
                 if isinstance(v, ast.Name) and st.get(v.id) == ("SCALER-VALUE",):
                     out[v.id] = ("FACTOR-ALIAS", SC)      # the local now equals the wrapper's factor
                 continue
+            if k == mm.x:
+                out.pop("$memo:f", None)
+                out.pop("$memo:g", None)
             if "." in k:
                 continue
             if how == "aug":
@@ -333,7 +350,16 @@ def rule_units(ctx: Ctx) -> List[Ob]:
                 out[k] = st[v.id]
                 continue
             if isinstance(v, ast.Call) and (dotted(v.func) or "") in (f"{sf}.fun", f"{sf}.grad", f"{sf}.fun_and_grad"):
-                out[k] = scaled_now(st)
+                dn = (dotted(v.func) or "")
+                which = "f" if dn.endswith(".fun") else "g"
+                if dn.endswith("fun_and_grad"):
+                    tg_ = s.targets[0] if isinstance(s, ast.Assign) else None
+                    which = "g" if isinstance(tg_, ast.Tuple) and len(tg_.elts) == 2 and src(tg_.elts[1]) == k else "f"
+                out[k] = evaluated(st, which)
+                # a new point invalidates a primed cache
+                if v.args and src(v.args[0]) != mm.x:
+                    out.pop("$memo:f", None)
+                    out.pop("$memo:g", None)
             elif isinstance(v, ast.Call) and isinstance(v.func, ast.Name) and v.func.id == "update_fun_def":
                 # documented: the update function returns values in the unit it was given
                 tg = s.targets[0] if isinstance(s, ast.Assign) else None
@@ -403,8 +429,15 @@ def rule_units(ctx: Ctx) -> List[Ob]:
             mine = [n for n in scal if any(kk == k for kk, _, _ in node_defs(n))]
             if ck_none:
                 ok = len(mine) == 1 and not mine[0].loops and OUT.get(mine[0], {}).get(k) in (S(SC), RAW)
-                rec(f"{k} is scaled by the factor exactly once before the loop of a fresh run", f"{k} <- {k} * {fac}", mode, ok,
-                    f"{len(mine)} scaling statement(s) reachable; unit afterwards: {OUT.get(mine[0], {}).get(k) if mine else '-'}",
+                how_ = f"{len(mine)} scaling statement(s) reachable; unit afterwards: {OUT.get(mine[0], {}).get(k) if mine else '-'}"
+                if not mine:
+                    # no explicit scaling: the value must reach the loop scaled by the wrapper's factor some other way
+                    # (re-evaluated through the wrapper once the factor is set)
+                    heads = [n_ for n_ in cfg.nodes if n_.kind == "loophead" and n_.owner is mm.loop and n_ in IN]
+                    st_h = IN.get(heads[0], {}) if heads else {}
+                    ok = bool(heads) and st_h.get(k) == scaled_now(st_h)
+                    how_ = f"no scaling statement; at the loop entry {k} is {st_h.get(k)} with the wrapper's factor = {cur(st_h)}"
+                rec(f"{k} is scaled by the factor exactly once before the loop of a fresh run", f"{k} <- {k} * {fac}", mode, ok, how_,
                     mine[0].ast if mine else mm.f.node)
             for m in mine:
                 uin = IN.get(m, {}).get(k, "?")
